@@ -359,6 +359,10 @@ func (w *lcWorld) exec(op Op) {
 				w.trace = append(w.trace, fmt.Sprintf("Expire(h%d %s)", op.H%len(w.handles), h.name))
 			}
 		}
+	case "Idle":
+		// nobody calls into rosmar for a while: whatever is open or kept in memory stays as it is
+		time.Sleep(time.Duration(op.Amt) * time.Millisecond)
+		w.trace = append(w.trace, fmt.Sprintf("Idle(%dms)", op.Amt))
 	case "CloseAndDelete":
 		if len(w.handles) > 0 {
 			i := op.H % len(w.handles)
@@ -748,6 +752,68 @@ func TestC13Race(t *testing.T) {
 				st.Violations++
 			})
 			rt.Fatalf("property C13 violated (replay %s):%s", replayPath("C13", "TestC13Race"), devText(ds))
+		}
+	})
+}
+
+// ---- a quiet period -------------------------------------------------------------------------------
+
+func genLcStep(rt *rapid.T, nHandles int) Op {
+	switch k := pick(rt, []string{"Open", "Open", "Open", "Close", "Close", "Expire", "CloseAndDelete"}, "k"); k {
+	case "Open":
+		return Op{K: "Open", Key: pick(rt, lcNames, "name"), Path: pick(rt, []string{"mem", "mem", "mem2", "d1", "d 3"}, "url"), Amt: uint64(rapid.IntRange(0, 2).Draw(rt, "mode"))}
+	default:
+		return Op{K: k, H: rapid.IntRange(0, 7).Draw(rt, "h")}
+	}
+}
+
+// TestC13Idle: the lifecycle machine with a pause of several seconds in the middle - an in-memory
+// bucket (with or without open handles) and every open handle must be exactly what they were.
+func TestC13Idle(t *testing.T) {
+	st := statsFor("C13", "TestC13Idle")
+	st.Rule = "the lifecycle state machine of TestC13 (same model and probes) with a quiet period in the middle: 3-10 generated steps (opens weighted to the in-memory URLs), then 7-9 s in which nothing calls into rosmar, then 2-6 more steps; after the pause every open handle must work and every in-memory bucket that was not deleted must still hold everything written to it; non-trivial = an in-memory bucket existed during the pause; distinct by the sequence of <op, outcome>"
+	if replayMode() {
+		rp := loadReplay("TestC13Idle")
+		if rp == nil {
+			t.Skip("replay file is for another test")
+		}
+		w := runLifecycle(rp.Steps)
+		st.Case(1, true, func() any { return w.trace })
+		if ds := lcJudge(w, st); len(ds) > 0 {
+			t.Fatalf("property C13 violated by replay:%s", devText(ds))
+		}
+		return
+	}
+	var once sync.Once
+	rapid.Check(t, func(rt *rapid.T) {
+		var steps []Op
+		n1 := rapid.IntRange(3, 10).Draw(rt, "before")
+		for i := 0; i < n1; i++ {
+			steps = append(steps, genLcStep(rt, 0))
+		}
+		steps = append(steps, Op{K: "Idle", Amt: uint64(rapid.IntRange(70, 90).Draw(rt, "idle")) * 100})
+		n2 := rapid.IntRange(2, 6).Draw(rt, "after")
+		for i := 0; i < n2; i++ {
+			steps = append(steps, genLcStep(rt, 0))
+		}
+		w := newLcWorld()
+		defer w.cleanup()
+		memAlive := false
+		for _, op := range steps {
+			if op.K == "Idle" {
+				for _, s := range w.stores {
+					memAlive = memAlive || (s.loaded && !s.disk)
+				}
+			}
+			w.exec(op)
+		}
+		st.Case(fnvString(strings.Join(w.trace, ";")), memAlive, func() any { return w.trace })
+		if ds := lcJudge(w, st); len(ds) > 0 {
+			once.Do(func() {
+				saveReplay(&Replay{Property: "C13", Test: "TestC13Idle", Steps: steps, Expect: ds})
+				st.Violations++
+			})
+			rt.Fatalf("property C13 violated (replay %s):%s\n  history: %s", replayPath("C13", "TestC13Idle"), devText(ds), strings.Join(w.trace, "; "))
 		}
 	})
 }
